@@ -25,13 +25,14 @@ WSLen == [none |-> 0, sp1 |-> 1, sp2 |-> 2, sp4 |-> 4, tab |-> 1]
 Default == [eol |-> "lf", indent |-> "none", blank |-> 0, declL |-> "sp1", declR |-> "sp1", taskSp |-> "sp1",
             nameLp |-> "none", lpIn |-> "none", commaL |-> "none", commaR |-> "sp1", trail |-> FALSE, rpIn |-> "none",
             arrowL |-> "sp1", arrowR |-> "sp1", parenSingle |-> FALSE, lbL |-> "sp1", body |-> "multi",
-            cmdIndent |-> "sp4", cmdBlank |-> 0, rbIndent |-> "none", lead |-> "none", finalNL |-> 1, listBreak |-> "none"]
+            cmdIndent |-> "sp4", cmdBlank |-> 0, rbIndent |-> "none", lead |-> "none", finalNL |-> 1, listBreak |-> "none", oneL |-> "sp1", oneR |-> "sp1"]
 Vals == [eol |-> {"lf", "crlf"}, indent |-> {"none", "sp2", "tab"}, blank |-> {0, 1, 2}, declL |-> {"none", "sp1", "tab"},
          declR |-> {"none", "sp1", "tab"}, taskSp |-> {"sp1", "sp2", "tab"}, nameLp |-> {"none", "sp1"}, lpIn |-> {"none", "sp1"},
          commaL |-> {"none", "sp1"}, commaR |-> {"none", "sp1", "tab"}, trail |-> BOOLEAN, rpIn |-> {"none", "sp1"},
          arrowL |-> {"none", "sp1"}, arrowR |-> {"none", "sp1"}, parenSingle |-> BOOLEAN, lbL |-> {"none", "sp1", "tab"},
          body |-> {"multi", "one"}, cmdIndent |-> {"none", "sp4", "tab"}, cmdBlank |-> {0, 1}, rbIndent |-> {"none", "sp2"},
-         lead |-> {"none", "lf", "sp2lf"}, finalNL |-> {0, 1, 2}, listBreak |-> {"none", "lines"}]
+         lead |-> {"none", "lf", "sp2lf"}, finalNL |-> {0, 1, 2}, listBreak |-> {"none", "lines"},
+         oneL |-> {"none", "sp1", "sp2", "tab"}, oneR |-> {"none", "sp1", "sp2", "tab"}]      \* spacing inside the braces of a one-line body
 Dims == DOMAIN Default
 Layouts1 == UNION {{[Default EXCEPT ![d] = v] : v \in Vals[d]} : d \in Dims}
 Layouts2 == UNION {UNION {{[l1 EXCEPT ![d] = v] : v \in Vals[d]} : d \in Dims} : l1 \in Layouts1}
@@ -62,7 +63,7 @@ CmdLines(cs, i, l) == IF i > Len(cs) THEN << >>
                            \o CmdLines(cs, i + 1, l)
 Body(cs, l) == IF Len(cs) = 0 THEN Tk("LBRACE", "", 1) \o Tk("RBRACE", "", 1)
                ELSE IF Len(cs) = 1 /\ l.body = "one"
-                    THEN Tk("LBRACE", "", 1) \o W("sp1") \o Tk("COMMAND", cs[1], LexLen[cs[1]]) \o W("sp1") \o Tk("RBRACE", "", 1)
+                    THEN Tk("LBRACE", "", 1) \o W(l.oneL) \o Tk("COMMAND", cs[1], LexLen[cs[1]]) \o W(l.oneR) \o Tk("RBRACE", "", 1)
                     ELSE Tk("LBRACE", "", 1) \o EOL(l) \o CmdLines(cs, 1, l) \o W(l.rbIndent) \o Tk("RBRACE", "", 1)
 Stmt(n, l) ==
   CASE n.k = "comment" -> Comment(n.id, l)
